@@ -1404,4 +1404,217 @@ theorem constructDim_ok (dim m : Nat) (a : Bool) (hm : ValidMethod m) (hd : 0 < 
 
 end Object3
 
+section Histories
+
+/-! ## histories -/
+
+inductive Op where
+  | setFreq (p : List ℝ)
+  | setPar (θ : List ℝ)
+  | setOne (i : Nat) (v : ℝ)
+
+noncomputable def applyOp (s : St ℝ) : Op → Except Err (St ℝ)
+  | .setFreq p => setFrequencies s p
+  | .setPar θ => matchParams s θ
+  | .setOne i v => Simplex.setOne s i v
+
+/-- one call; a call that raises leaves the object as it was -/
+noncomputable def stepOp (s : St ℝ) (o : Op) : St ℝ :=
+  match applyOp s o with
+  | .ok s' => s'
+  | .error _ => s
+
+noncomputable def run (s : St ℝ) (ops : List Op) : St ℝ := ops.foldl stepOp s
+
+def Same (s s' : St ℝ) : Prop := s'.dim = s.dim ∧ s'.method = s.method ∧ s'.allowNull = s.allowNull
+
+theorem fire_same (s : St ℝ) : Same s (fire s) := by
+  simp only [fire, Same]
+  split
+  · exact ⟨rfl, rfl, rfl⟩
+  · split <;> exact ⟨rfl, rfl, rfl⟩
+
+theorem matchParams_same (s s' : St ℝ) (θ : List ℝ) (e : matchParams s θ = .ok s') : Same s s' := by
+  simp only [matchParams] at e
+  split at e
+  · split at e
+    · cases e; exact fire_same _
+    · cases e; exact ⟨rfl, rfl, rfl⟩
+  · cases e
+
+theorem applyOp_same (s s' : St ℝ) (o : Op) (e : applyOp s o = .ok s') : Same s s' := by
+  cases o with
+  | setFreq p =>
+    simp only [applyOp, setFrequencies] at e
+    split at e
+    · cases e; exact ⟨rfl, rfl, rfl⟩
+    · split at e
+      · cases e
+      · split at e
+        · cases e
+        · exact matchParams_same s s' _ e
+  | setPar θ => exact matchParams_same s s' θ e
+  | setOne i v =>
+    simp only [applyOp, Simplex.setOne] at e
+    split at e
+    · cases e
+    · split at e
+      · split at e
+        · cases e; exact fire_same _
+        · cases e
+      · cases e; exact fire_same _
+
+theorem stepOp_same (s : St ℝ) (o : Op) : Same s (stepOp s o) := by
+  unfold stepOp
+  cases h : applyOp s o with
+  | ok s' => exact applyOp_same s s' o h
+  | error _ => exact ⟨rfl, rfl, rfl⟩
+
+/-- the only well-formedness asked of a call under the strict constraint: `matchParametersValues`
+is given one value per parameter -/
+def WellFormed (dim : Nat) : Op → Prop
+  | .setPar θ => θ.length = dim - 1
+  | _ => True
+
+/-- Strict constraint `]0,1[`: the invariant survives EVERY history — whatever the arguments
+(rejected calls change nothing, accepted ones re-establish it). -/
+theorem inv_run_strict (s : St ℝ) (h : Inv s) (ha : s.allowNull = false) (ops : List Op)
+    (hw : ∀ o ∈ ops, WellFormed s.dim o) : Inv (run s ops) := by
+  induction ops generalizing s with
+  | nil => exact h
+  | cons o rest ih =>
+    have hs := stepOp_same s o
+    have hstep : Inv (stepOp s o) := by
+      unfold stepOp
+      cases e : applyOp s o with
+      | error _ => exact h
+      | ok s' =>
+        cases o with
+        | setFreq p => exact setFrequencies_inv s h ha p s' e
+        | setPar θ => exact matchParams_inv s h ha θ (hw (.setPar θ) (by simp)) s' e
+        | setOne i v => exact setOne_inv s h ha i v s' e
+    simp only [run, List.foldl_cons]
+    exact ih (stepOp s o) hstep (by rw [hs.2.2]; exact ha)
+      (fun o' ho' => by rw [hs.1]; exact hw o' (by simp [ho']))
+
+/-- arguments inside the property's quantifier: probability vectors with positive entries,
+parameter vectors in the open cube -/
+def Admissible (dim : Nat) : Op → Prop
+  | .setFreq p => ValidProbs p ∧ p.length = dim
+  | .setPar θ => θ.length = dim - 1 ∧ InOpen θ
+  | .setOne i v => (1 ≤ i ∧ i < dim) ∧ (0 < v ∧ v < 1)
+
+/-- either constraint: admissible calls are all accepted and keep the invariant -/
+theorem inv_run_admissible (s : St ℝ) (h : Inv s) (ops : List Op)
+    (hw : ∀ o ∈ ops, Admissible s.dim o) : Inv (run s ops) := by
+  induction ops generalizing s with
+  | nil => exact h
+  | cons o rest ih =>
+    have hs := stepOp_same s o
+    have hstep : Inv (stepOp s o) := by
+      have ho := hw o (by simp)
+      unfold stepOp
+      cases o with
+      | setFreq p =>
+        obtain ⟨s', e, _, _, hi⟩ := setFrequencies_ok s h p ho.1 ho.2
+        simp only [applyOp, e]; exact hi
+      | setPar θ =>
+        obtain ⟨s', e, hi, _⟩ := matchParams_ok s h θ ho.1 ho.2
+        simp only [applyOp, e]; exact hi
+      | setOne i v =>
+        obtain ⟨s', e, hi, _⟩ := setOne_ok s h i v ho.1 ho.2
+        simp only [applyOp, e]; exact hi
+    simp only [run, List.foldl_cons]
+    exact ih (stepOp s o) hstep (fun o' ho' => by rw [hs.1]; exact hw o' (by simp [ho']))
+
+
+end Histories
+
+section OrderedObject
+
+/-! ## OrderedSimplex objects -/
+
+structure OInv (o : OSt ℝ) : Prop where
+  base : Inv o.base
+  values : o.values = orderedValues o.base.probs 1
+
+theorem OInv.spec {o : OSt ℝ} (h : OInv o) :
+    NonIncreasing o.values ∧ o.values.sum = 1 ∧ (∀ v ∈ o.values, 0 ≤ v) ∧ o.values.length = o.base.dim := by
+  obtain ⟨hs, hp, hl⟩ := h.base.sum_one
+  have hnn : ∀ x ∈ o.base.probs, 0 ≤ x := fun x m => le_of_lt (hp x m)
+  obtain ⟨h1, h2⟩ := orderedValues_nonincreasing o.base.probs 1 hnn
+  rw [h.values]
+  exact ⟨h1, by rw [orderedValues_sum_eq, hs], h2, by rw [orderedValues_length, hl]⟩
+
+theorem oRefresh_inv (b : St ℝ) (h : Inv b) : OInv (oRefresh b) := ⟨h, rfl⟩
+
+/-- an ordered vector in the sense of the property: strictly decreasing positive values, sum one -/
+structure ValidOrdered (v : List ℝ) : Prop where
+  decr : StrictDecrPos v
+  ne : v ≠ []
+  sum : v.sum = 1
+  len : v.length < 2 ^ 31
+
+theorem validOrdered_probs {v : List ℝ} (hv : ValidOrdered v) : ValidProbs (orderedToProbs v 1) := by
+  refine ⟨orderedToProbs_pos v 1 (le_refl _) hv.decr, ?_, by rw [orderedToProbs_sum, hv.sum],
+    by rw [orderedToProbs_length]; exact hv.len⟩
+  intro h
+  have := orderedToProbs_length v 1
+  rw [h] at this
+  exact hv.ne (List.length_eq_zero_iff.mp this.symm)
+
+theorem oSetFrequencies_ok (o : OSt ℝ) (h : Inv o.base) (v : List ℝ) (hv : ValidOrdered v)
+    (hl : v.length = o.base.dim) :
+    ∃ o', oSetFrequencies o v = .ok o' ∧ o'.values = v ∧ OInv o' ∧ o'.base.probs = orderedToProbs v 1 := by
+  have hp := validOrdered_probs hv
+  obtain ⟨b, e, hpr, _, hi⟩ := setFrequencies_ok o.base h (orderedToProbs v 1) hp
+    (by rw [orderedToProbs_length, hl])
+  have hne : ¬ (v.length = 0 ∨ v.length ≠ o.base.dim) := by
+    have := h.dim_pos; omega
+  refine ⟨⟨b, v⟩, ?_, rfl, ⟨hi, ?_⟩, hpr⟩
+  · simp only [oSetFrequencies, hne, if_false, e]; rfl
+  · show v = orderedValues b.probs 1
+    rw [hpr, orderedValues_toProbs v 1 (le_refl _)]
+
+theorem oConstructDim_ok (dim m : Nat) (a : Bool) (hm : ValidMethod m) (hd : 0 < dim) (h31 : dim < 2 ^ 31) :
+    ∃ o, oConstructDim dim m a = .ok o ∧ OInv o ∧ o.base.dim = dim ∧ o.base.method = m ∧ o.base.allowNull = a := by
+  obtain ⟨s, e, _, hi, ha, hdim, hme⟩ := constructDim_ok dim m a hm hd h31
+  exact ⟨oRefresh s, by simp only [oConstructDim, e]; rfl, oRefresh_inv s hi, hdim, hme, ha⟩
+
+theorem oConstruct_ok (v : List ℝ) (m : Nat) (a : Bool) (hm : ValidMethod m) (hv : ValidOrdered v) :
+    ∃ o, oConstruct v m a = .ok o ∧ o.values = v ∧ OInv o ∧ o.base.allowNull = a := by
+  have hpos : 0 < v.length := List.length_pos_of_ne_nil hv.ne
+  obtain ⟨s, e, _, hi, ha, hdim, hme⟩ := constructDim_ok v.length m a hm hpos hv.len
+  obtain ⟨o', e', hval, hoi, _⟩ := oSetFrequencies_ok ⟨s, v⟩ hi v hv hdim.symm
+  refine ⟨o', ?_, hval, hoi, ?_⟩
+  · simp only [oConstruct, e]; exact e'
+  · have hne : ¬ (v.length = 0 ∨ v.length ≠ s.dim) := by omega
+    simp only [oSetFrequencies, hne, if_false] at e'
+    cases e1 : setFrequencies s (orderedToProbs v 1) with
+    | error err => rw [e1] at e'; cases e'
+    | ok b =>
+      rw [e1] at e'
+      have : o' = ⟨b, v⟩ := by cases e'; rfl
+      rw [this]
+      have := applyOp_same s b (.setFreq (orderedToProbs v 1)) e1
+      rw [this.2.2, ha]
+
+theorem oMatchParams_ok (o : OSt ℝ) (h : OInv o) (θ : List ℝ) (hl : θ.length = o.base.dim - 1) (ho : InOpen θ) :
+    ∃ o', oMatchParams o θ = .ok o' ∧ OInv o' ∧ o'.base.params = θ := by
+  obtain ⟨s', e, hi, hpar, _⟩ := matchParams_ok o.base h.base θ hl ho
+  simp only [oMatchParams, e]
+  by_cases hc : (List.zip o.base.params θ).any (fun (c, v) => !(Scalar.eqb c v)) = true
+  · exact ⟨oRefresh s', by simp only [hc, if_true]; rfl, oRefresh_inv s' hi, hpar⟩
+  · have hc' := eq_false_of_ne_true hc
+    have := eq_of_not_changed o.base.params θ (by rw [h.base.len, hl]) hc'
+    exact ⟨o, by simp only [hc', Bool.false_eq_true, if_false]; rfl, h, this⟩
+
+theorem oSetOne_ok (o : OSt ℝ) (h : OInv o) (i : Nat) (v : ℝ) (hi : 1 ≤ i ∧ i < o.base.dim) (hv : 0 < v ∧ v < 1) :
+    ∃ o', oSetOne o i v = .ok o' ∧ OInv o' := by
+  obtain ⟨s', e, hi', _⟩ := setOne_ok o.base h.base i v hi hv
+  exact ⟨oRefresh s', by simp only [oSetOne, e]; rfl, oRefresh_inv s' hi'⟩
+
+
+end OrderedObject
+
 end Bpp.Simplex
